@@ -517,8 +517,9 @@ fn resolve_regions(
     impl Regions {
         fn push(&mut self, type_registry: &TypeRegistry, region: Region) -> Option<()> {
             let size = region.size(type_registry)?;
-            if size == 0 && region.type_ref.is_array() {
-                // zero-sized regions that are arrays are ignored
+            if size == 0 && region.type_ref.is_array() && region.name.is_none() {
+                // zero-sized unnamed regions that are arrays (i.e. empty padding) are ignored;
+                // a named zero-length array field is still a field and must be emitted
                 return Some(());
             }
 
